@@ -282,9 +282,18 @@ class _Inliner:
             if p not in bound:
                 if p not in defaults:
                     raise _Unsuitable(f'missing argument {p}')
-                bound[p] = copy.deepcopy(defaults[p])
+                d_ = defaults[p]
+                if not (isinstance(d_, ast.Constant) or (isinstance(d_, ast.UnaryOp) and isinstance(d_.operand, ast.Constant))):
+                    # a default is evaluated once, when the def statement runs: substituting it at the call would read it later
+                    raise _Unsuitable(f'default of {p} is not a literal (bound at definition time)')
+                bound[p] = copy.deepcopy(d_)
             uses = sum(1 for x in ast.walk(fn) if isinstance(x, ast.Name) and x.id == p and isinstance(x.ctx, ast.Load))
-            if p not in stored and (_simple_arg(bound[p]) or uses <= 1):
+            body_ = h.body()
+            one_expr = len(body_) == 1 and isinstance(body_[0], ast.Return)
+            # in a helper of several statements the argument is evaluated before any of them runs: only what the body
+            # cannot change (a local of the caller, a literal) may be read later instead
+            direct = (_simple_arg(bound[p]) or uses <= 1) if one_expr else isinstance(bound[p], (ast.Name, ast.Constant))
+            if p not in stored and direct:
                 mapping[p] = bound[p]
             else:
                 tmp = f'{p}__{n}'
